@@ -435,25 +435,98 @@ CONTRACTS[U + "weighted_regularization_matrix_from"].nontrivial = lambda neighbo
 CONTRACTS[U + "reg_split_from"].nontrivial = lambda splitted_mappings, **kw: len(splitted_mappings) > 0
 
 
-# ==================================================================================================== quadratic form (constant scheme)
-# x^T H x = 1e-8 |x|^2 + c^2 * sum over neighbouring pairs (x_a - x_b)^2, derived from the ENTRYWISE contract alone.
-# The pair sum is written over the square: (1/2) sum_a sum_b mult(a, b) (x_a - x_b)^2 -- every unordered neighbouring pair
-# {a, b} of a symmetric table occurs as (a, b) and as (b, a).  The proof is a chain of inductive lemmas (row action of H,
-# binomial expansion of a row of the pair sum, row sums of mult = degree, the handshake identity
-# sum_a sum_b mult(a, b) x_b^2 = sum_b deg(b) x_b^2 for symmetric tables (a Fubini exchange), row-by-row assembly).
-macro("c07_QR", ["H", "x", "a", "m"], "sumto(m, lambda b: x[a] * H[a, b] * x[b])")                       # x_a (H x)_a, first m columns
-macro("c07_M0", ["nb", "sz", "a", "m"], "sumto(m, lambda b: c07_mult(nb, sz, a, b))")
-macro("c07_M1", ["x", "nb", "sz", "a", "m"], "sumto(m, lambda b: c07_mult(nb, sz, a, b) * x[a] * x[b])")
-macro("c07_M2", ["x", "nb", "sz", "a", "m"], "sumto(m, lambda b: c07_mult(nb, sz, a, b) * x[b] * x[b])")
-macro("c07_DR", ["x", "nb", "sz", "a", "m"], "sumto(m, lambda b: c07_mult(nb, sz, a, b) * (x[a] - x[b]) * (x[a] - x[b]))")
-macro("c07_CS", ["nb", "sz", "b", "n"], "sumto(n, lambda a: c07_mult(nb, sz, a, b))")                    # column sums of mult
+# ==================================================================================================== quadratic forms
+# x^T H x = 1e-8 |x|^2 + kappa * (1/2) sum_a sum_b mu(a, b) (x_a - x_b)^2, derived from the ENTRYWISE contracts alone, for
+#   constant scheme : mu(a, b) = mult(a, b),                        kappa = c^2, for symmetric tables (mult(a, b) = mult(b, a));
+#   weighted scheme : mu(a, b) = w_b^2 mult(a, b) + w_a^2 mult(b, a), kappa = 1,  for EVERY table.
+# The pair sum is written over the square: every unordered neighbouring pair {a, b} of a symmetric table occurs as (a, b) and as
+# (b, a), so (1/2) sum_a sum_b mult(a, b) (x_a - x_b)^2 is the sum over neighbouring pairs, and mu = w_a^2 + w_b^2 on such a pair.
+# Both matrices have the shape H[a, b] = -kappa mu(a, b) + [a == b] (1e-8 + kappa deg(a)) with deg(a) = sum_b mu(a, b) and mu
+# symmetric.  The proof is a chain of inductive lemmas: row action of H (R1), binomial expansion of a row of the pair sum (R2),
+# row sums of mu = deg (R3*), the handshake identity sum_a sum_b mu(a, b) x_b^2 = sum_b deg(b) x_b^2 (H1*: an exchange of the
+# two sums through the two-argument partial sum c07_G*), row-by-row assembly (F), signs (N*).
+macro("c07_RA", ["H", "x", "a", "m"], "sumto(m, lambda b: H[a, b] * x[b])")                              # (H x)_a, first m columns
 _QSHP = "nb.shape[0] == P and sz.shape[0] == P and forall(0, P, lambda i: 0 <= sz[i] and sz[i] <= nb.shape[1])"
 _QT = _QSHP + " and forall(0, P, lambda i: forall(0, sz[i], lambda k: 0 <= nb[i, k] and nb[i, k] < P))"
-_QH = ("H.shape[0] == P and H.shape[1] == P and forall(0, P, lambda a: forall(0, P, lambda b:"
-       " H[a, b] == -cc * c07_mult(nb, sz, a, b) + (1e-08 + cc * sz[a] if a == b else 0)))")
-_QS = "forall(0, P, lambda a: forall(0, P, lambda b: c07_mult(nb, sz, a, b) == c07_mult(nb, sz, b, a)))"
 
-# number of k < K with nb[a, k] < m
+
+def _q_py(H, x, *rest):
+    n = rest[-1]
+    return float(sum(x[a] * sum(H[a, b] * x[b] for b in range(len(x))) for a in range(n)))
+
+
+def _fa(hyp, body, pat):      # forall a in [0, P): hyp => body
+    return "forall(0, P, lambda a: implies(" + hyp + ", " + body + "), pat=" + pat + ")"
+
+
+def _qf_chain(t, ar, artypes, mu, deg, extra_hyp, mu_sym_hyp, r3_chain, r3_hint, nonneg_chain, mu_py):
+    """t: tag; ar: array argument list (after x) of the macros; mu/deg: DSL templates; extra_hyp: shape facts besides the table;
+    mu_sym_hyp: hypothesis under which mu(a, b) == mu(b, a) (None: provable outright); r3_chain(lem): adds the lemmas that
+    establish sum_{b<P} mu(a, b) == deg(a); nonneg_chain(lem): adds the lemmas establishing mu >= 0."""
+    A = ", ".join(ar)
+    pa = ["x"] + ar
+    M = lambda a, b: mu.format(a=a, b=b)
+    macro("c07_M0" + t, ar + ["a", "m"], "sumto(m, lambda b: " + M("a", "b") + ")")
+    macro("c07_M1" + t, pa + ["a", "m"], "sumto(m, lambda b: (" + M("a", "b") + ") * x[b])")
+    macro("c07_M2" + t, pa + ["a", "m"], "sumto(m, lambda b: (" + M("a", "b") + ") * x[b] * x[b])")
+    macro("c07_DR" + t, pa + ["a", "m"], "sumto(m, lambda b: (" + M("a", "b") + ") * (x[a] - x[b]) * (x[a] - x[b]))")
+    macro("c07_CS" + t, ar + ["b", "n"], "sumto(n, lambda a: " + M("a", "b") + ")")                     # column sums of mu
+    M0, M1, M2, DR, CS = ["c07_%s%s(%s%s, {0}, {1})" % (k, t, "" if k in ("M0", "CS") else "x, ", A) for k in ("M0", "M1", "M2", "DR", "CS")]
+    G = "c07_G%s(x, %s, {0}, {1})" % (t, A)
+    Q = "c07_q%s(H, x, %s, cc, {0})" % (t, A)
+    T = _QT + (" and " + extra_hyp if extra_hyp else "")
+    QH = ("H.shape[0] == P and H.shape[1] == P and forall(0, P, lambda a: forall(0, P, lambda b:"
+          " H[a, b] == -cc * (" + M("a", "b") + ") + (1e-08 + cc * (" + deg.format(a="a") + ") if a == b else 0)))")
+    TH = T + " and " + QH
+    TS = T + (" and " + mu_sym_hyp if mu_sym_hyp else "")
+    THS = TH + (" and " + mu_sym_hyp if mu_sym_hyp else "")
+    # sum_{b < m} x_b^2 * (sum_{a < n} mu(a, b))
+    spec_fn("c07_G" + t, params=[("x", "real[1]")] + artypes + [("n", "int"), ("m", "int")], ret="real", let={"P": "x.shape[0]"},
+            axioms=["implies(" + T + ", forall(0, P + 1, lambda n: " + G.format("n", "0") + " == 0, pat=" + G.format("n", "0") + "))",
+                    "implies(" + T + ", forall(0, P + 1, lambda n: forall(0, P, lambda m: " + G.format("n", "m + 1") + " == " + G.format("n", "m")
+                    + " + x[m] * x[m] * " + CS.format("m", "n") + ", pat=" + G.format("n", "m + 1") + ")))"],
+            py=lambda x, *r: float(sum(x[b] ** 2 * sum(mu_py(*r[:-2], a, b) for a in range(r[-2])) for b in range(r[-1]))))
+    L = []
+
+    def lem(name, stmt, induct=None, hi=None, export=False):
+        L.append(dict(name=name, induct=induct, lo=0, hi=hi, stmt=stmt, export=export) if induct else dict(name=name, noinduct=True, stmt=stmt, export=export))
+
+    X2 = "sumto({0}, lambda a: x[a] * x[a])"
+    DD = "sumto({0}, lambda a: " + DR.format("a", "P") + ")"
+    DG = "sumto({0}, lambda b: (" + deg.format(a="b") + ") * x[b] * x[b])"
+    # row action: (H x)_a = (1e-8 + kappa deg a) x_a - kappa sum_b mu(a, b) x_b
+    lem("R1", _fa(TH, "c07_RA(H, x, a, m) == ((1e-08 + cc * (" + deg.format(a="a") + ")) * x[a] if a < m else 0) - cc * " + M1.format("a", "m"), "c07_RA(H, x, a, m)"), "m", "P")
+    # binomial expansion of one row of the pair sum
+    lem("R2", _fa(T, DR.format("a", "m") + " == x[a] * x[a] * " + M0.format("a", "m") + " - 2 * x[a] * " + M1.format("a", "m") + " + " + M2.format("a", "m"), DR.format("a", "m")), "m", "P")
+    # row sums of mu are the degrees
+    r3_chain(lem, T, M0)
+    lem("R3", _fa(T, M0.format("a", "P") + " == " + deg.format(a="a") + r3_hint, M0.format("a", "P")))
+    lem("RowQ", _fa(TH, "c07_RA(H, x, a, P) == (1e-08 + cc * (" + deg.format(a="a") + ")) * x[a] - cc * " + M1.format("a", "P"), "c07_RA(H, x, a, P)"))
+    lem("RowD", _fa(T, DR.format("a", "P") + " == x[a] * x[a] * (" + deg.format(a="a") + ") - 2 * x[a] * " + M1.format("a", "P") + " + " + M2.format("a", "P"), DR.format("a", "P")))
+    # handshake: sum_a sum_b mu(a, b) x_b^2 == sum_b deg(b) x_b^2   (exchange of the two sums through c07_G; uses mu(a,b) == mu(b,a))
+    lem("H1z", "implies(" + T + ", " + G.format("0", "m") + " == 0)", "m", "P")
+    lem("H1a", "forall(0, P, lambda n: implies(" + T + ", " + G.format("n + 1", "m") + " == " + G.format("n", "m") + " + " + M2.format("n", "m") + "), pat=" + G.format("n + 1", "m") + ")", "m", "P")
+    lem("H1b", "implies(" + T + ", sumto(n, lambda a: " + M2.format("a", "P") + ") == " + G.format("n", "P") + ")", "n", "P")
+    lem("H1c", "forall(0, P, lambda b: implies(" + TS + ", " + CS.format("b", "n") + " == " + M0.format("b", "n") + "), pat=" + CS.format("b", "n") + ")", "n", "P")
+    lem("H1d", "implies(" + TS + ", " + G.format("P", "m") + " == " + DG.format("m") + ")", "m", "P")
+    lem("H1", "implies(" + TS + ", sumto(P, lambda a: " + M2.format("a", "P") + ") == " + DG.format("P") + ")")
+    # assembly, row by row (the last bracket vanishes by H1)
+    lem("F", "implies(" + TH + ", " + Q.format("n") + " == 1e-08 * " + X2.format("n") + " + (cc / 2) * " + DD.format("n")
+        + " + (cc / 2) * (" + DG.format("n") + " - sumto(n, lambda a: " + M2.format("a", "P") + ")))", "n", "P")
+    lem("QF", "implies(" + THS + ", " + Q.format("P") + " == 1e-08 * " + X2.format("P") + " + (cc / 2) * " + DD.format("P") + ")", export=True)
+    # the pair sum and |x|^2 are non-negative; |x|^2 > 0 for x != 0
+    nonneg_chain(lem, T)
+    lem("N1", _fa(T, DR.format("a", "m") + " >= 0", DR.format("a", "m")), "m", "P")
+    lem("N2", "implies(" + T + ", " + DD.format("n") + " >= 0 and " + X2.format("n") + " >= 0 and implies(exists(0, n, lambda a: x[a] != 0), " + X2.format("n") + " > 0))", "n", "P")
+    lem("PD", "implies(" + T + ", " + DD.format("P") + " >= 0 and " + X2.format("P") + " >= 0 and implies(exists(0, P, lambda a: x[a] != 0), " + X2.format("P") + " > 0))", export=True)
+    # the quadratic form restricted to the first n rows: sum_{a < n} x_a (H x)_a ; c07_q(.., P) = x^T H x
+    spec_fn("c07_q" + t, params=[("H", "real[2]"), ("x", "real[1]")] + artypes + [("cc", "$real"), ("n", "int")], ret="real", let={"P": "x.shape[0]"},
+            axioms=["implies(H.shape[0] == P and H.shape[1] == P, forall(0, P + 1, lambda n: " + Q.format("n") + " == sumto(n, lambda a: x[a] * c07_RA(H, x, a, P)), pat=" + Q.format("n") + "))"],
+            lemmas=L, py=_q_py, doc="x^T H x by rows; lemmas: the quadratic-form identity (" + t + ")")
+
+
+# ---- constant scheme: mu = mult, deg = sz
+# c07_cl: number of k < K with nb[a, k] < m
 spec_fn("c07_cl", params=[("nb", "int[2]"), ("a", "int"), ("m", "int"), ("K", "int")], ret="int",
         axioms=["forall(0, nb.shape[0], lambda a: forall(0, nb.shape[0] + 1, lambda m: c07_cl(nb, a, m, 0) == 0, pat=c07_cl(nb, a, m, 0)))",
                 "forall(0, nb.shape[0], lambda a: forall(0, nb.shape[0] + 1, lambda m: forall(0, nb.shape[1], lambda K:"
@@ -461,82 +534,92 @@ spec_fn("c07_cl", params=[("nb", "int[2]"), ("a", "int"), ("m", "int"), ("K", "i
         py=lambda nb, a, m, K: int(sum(1 for k in range(K) if nb[a, k] < m)))
 
 
-def _G_py(x, nb, sz, n, m):
-    return float(sum(x[b] ** 2 * sum(_cnt_py(nb, a, b, sz[a]) for a in range(n)) for b in range(m)))
+def _r3_const(lem, T, M0):
+    lem("R3a", "forall(0, P, lambda a: forall(0, P, lambda m: implies(" + T + " and K <= sz[a], c07_cl(nb, a, m + 1, K) == c07_cl(nb, a, m, K) + c07_cnt(nb, a, m, K)),"
+               " pat=c07_cl(nb, a, m + 1, K)))", "K", "nb.shape[1]")
+    lem("R3c", _fa(T + " and K <= sz[a]", "c07_cl(nb, a, 0, K) == 0 and c07_cl(nb, a, P, K) == K", "(c07_cl(nb, a, 0, K), c07_cl(nb, a, P, K))"), "K", "nb.shape[1]")
+    lem("R3b", _fa(T, M0.format("a", "m") + " == c07_cl(nb, a, m, sz[a])", M0.format("a", "m")), "m", "P")
 
 
-# sum_{b < m} x_b^2 * (sum_{a < n} mult(a, b))
-spec_fn("c07_G", params=[("x", "real[1]"), ("nb", "int[2]"), ("sz", "int[1]"), ("n", "int"), ("m", "int")], ret="real",
-        let={"P": "x.shape[0]"},
-        axioms=["implies(" + _QSHP + ", forall(0, P + 1, lambda n: c07_G(x, nb, sz, n, 0) == 0, pat=c07_G(x, nb, sz, n, 0)))",
-                "implies(" + _QSHP + ", forall(0, P + 1, lambda n: forall(0, P, lambda m:"
-                " c07_G(x, nb, sz, n, m + 1) == c07_G(x, nb, sz, n, m) + x[m] * x[m] * c07_CS(nb, sz, m, n), pat=c07_G(x, nb, sz, n, m + 1))))"],
-        py=_G_py)
-
-_QL = []
+def _nn_const(lem, T):
+    lem("N0", "forall(0, P, lambda a: forall(0, P, lambda b: implies(" + T + " and K <= sz[a], c07_cnt(nb, a, b, K) >= 0), pat=c07_cnt(nb, a, b, K)))", "K", "nb.shape[1]")
 
 
-def _lem(name, stmt, induct=None, hi=None, **kw):
-    _QL.append(dict(name=name, induct=induct, lo=0, hi=hi, stmt=stmt, **kw) if induct else dict(name=name, noinduct=True, stmt=stmt, **kw))
+_QS = "forall(0, P, lambda a: forall(0, P, lambda b: c07_mult(nb, sz, a, b) == c07_mult(nb, sz, b, a)))"
+_qf_chain("c", ["nb", "sz"], [("nb", "int[2]"), ("sz", "int[1]")], "c07_mult(nb, sz, {a}, {b})", "sz[{a}]", "", _QS, _r3_const, "", _nn_const,
+          lambda nb, sz, a, b: _cnt_py(nb, a, b, sz[a]))
 
-
-def _fa(hyp, body, pat):      # forall a in [0, P): hyp => body
-    return "forall(0, P, lambda a: implies(" + hyp + ", " + body + "), pat=" + pat + ")"
-
-
-_T, _TH, _TS, _THS = _QT, _QT + " and " + _QH, _QT + " and " + _QS, _QT + " and " + _QH + " and " + _QS
-_X2 = "sumto({n}, lambda a: x[a] * x[a])"
-_DD = "sumto({n}, lambda a: c07_DR(x, nb, sz, a, P))"
-# row action: x_a (H x)_a = (1e-8 + c^2 deg a) x_a^2 - c^2 sum_b mult(a, b) x_a x_b
-_lem("R1", _fa(_TH, "c07_QR(H, x, a, m) == ((1e-08 + cc * sz[a]) * x[a] * x[a] if a < m else 0) - cc * c07_M1(x, nb, sz, a, m)", "c07_QR(H, x, a, m)"), "m", "P", export=False)
-# binomial expansion of one row of the pair sum
-_lem("R2", _fa(_T, "c07_DR(x, nb, sz, a, m) == x[a] * x[a] * c07_M0(nb, sz, a, m) - 2 * c07_M1(x, nb, sz, a, m) + c07_M2(x, nb, sz, a, m)", "c07_DR(x, nb, sz, a, m)"), "m", "P", export=False)
-# row sums of the multiplicities are the degrees: sum_{b < P} mult(a, b) = sz[a]
-_lem("R3a", "forall(0, P, lambda a: forall(0, P, lambda m: implies(" + _T + " and K <= sz[a], c07_cl(nb, a, m + 1, K) == c07_cl(nb, a, m, K) + c07_cnt(nb, a, m, K)),"
-            " pat=c07_cl(nb, a, m + 1, K)))", "K", "nb.shape[1]", export=False)
-_lem("R3c", _fa(_T + " and K <= sz[a]", "c07_cl(nb, a, 0, K) == 0 and c07_cl(nb, a, P, K) == K", "(c07_cl(nb, a, 0, K), c07_cl(nb, a, P, K))"), "K", "nb.shape[1]", export=False)
-_lem("R3b", _fa(_T, "c07_M0(nb, sz, a, m) == c07_cl(nb, a, m, sz[a])", "c07_M0(nb, sz, a, m)"), "m", "P", export=False)
-_lem("R3", _fa(_T, "c07_M0(nb, sz, a, P) == sz[a]", "c07_M0(nb, sz, a, P)"), export=False)
-_lem("RowQ", _fa(_TH, "c07_QR(H, x, a, P) == (1e-08 + cc * sz[a]) * x[a] * x[a] - cc * c07_M1(x, nb, sz, a, P)", "c07_QR(H, x, a, P)"), export=False)
-_lem("RowD", _fa(_T, "c07_DR(x, nb, sz, a, P) == x[a] * x[a] * sz[a] - 2 * c07_M1(x, nb, sz, a, P) + c07_M2(x, nb, sz, a, P)", "c07_DR(x, nb, sz, a, P)"), export=False)
-# handshake (symmetric table): sum_a sum_b mult(a, b) x_b^2 == sum_b sz_b x_b^2   (exchange of the two sums through c07_G)
-_lem("H1z", "implies(" + _T + ", c07_G(x, nb, sz, 0, m) == 0)", "m", "P", export=False)
-_lem("H1a", "forall(0, P, lambda n: implies(" + _T + ", c07_G(x, nb, sz, n + 1, m) == c07_G(x, nb, sz, n, m) + c07_M2(x, nb, sz, n, m)), pat=c07_G(x, nb, sz, n + 1, m))", "m", "P", export=False)
-_lem("H1b", "implies(" + _T + ", sumto(n, lambda a: c07_M2(x, nb, sz, a, P)) == c07_G(x, nb, sz, n, P))", "n", "P", export=False)
-_lem("H1c", "forall(0, P, lambda b: implies(" + _TS + ", c07_CS(nb, sz, b, n) == c07_M0(nb, sz, b, n)), pat=c07_CS(nb, sz, b, n))", "n", "P", export=False)
-_lem("H1d", "implies(" + _TS + ", c07_G(x, nb, sz, P, m) == sumto(m, lambda b: sz[b] * x[b] * x[b]))", "m", "P", export=False)
-_lem("H1", "implies(" + _TS + ", sumto(P, lambda a: c07_M2(x, nb, sz, a, P)) == sumto(P, lambda b: sz[b] * x[b] * x[b]))", export=False)
-# assembly, row by row (valid for every table; the last bracket vanishes for symmetric tables by H1)
-_lem("F", "implies(" + _TH + ", c07_q(H, x, nb, sz, cc, n) == 1e-08 * " + _X2.format(n="n") + " + (cc / 2) * " + _DD.format(n="n")
-          + " + (cc / 2) * (sumto(n, lambda b: sz[b] * x[b] * x[b]) - sumto(n, lambda a: c07_M2(x, nb, sz, a, P))))", "n", "P", export=False)
-_lem("QF", "implies(" + _THS + ", c07_q(H, x, nb, sz, cc, P) == 1e-08 * " + _X2.format(n="P") + " + (cc / 2) * " + _DD.format(n="P") + ")")
-# the pair sum and |x|^2 are non-negative; |x|^2 > 0 for x != 0
-_lem("N0", "forall(0, P, lambda a: forall(0, P, lambda b: implies(" + _T + " and K <= sz[a], c07_cnt(nb, a, b, K) >= 0), pat=c07_cnt(nb, a, b, K)))", "K", "nb.shape[1]", export=False)
-_lem("N1", _fa(_T, "c07_DR(x, nb, sz, a, m) >= 0", "c07_DR(x, nb, sz, a, m)"), "m", "P", export=False)
-_lem("N2", "implies(" + _T + ", " + _DD.format(n="n") + " >= 0 and " + _X2.format(n="n") + " >= 0 and implies(exists(0, n, lambda a: x[a] != 0), " + _X2.format(n="n") + " > 0))", "n", "P", export=False)
-_lem("PD", "implies(" + _T + ", " + _DD.format(n="P") + " >= 0 and " + _X2.format(n="P") + " >= 0 and implies(exists(0, P, lambda a: x[a] != 0), " + _X2.format(n="P") + " > 0))")
-
-
-def _q_py(H, x, nb, sz, cc, n):
-    return float(sum(x[a] * H[a, b] * x[b] for a in range(n) for b in range(len(x))))
-
-
-# the quadratic form restricted to the first n rows: sum_{a < n} x_a (H x)_a ; c07_q(.., P) = x^T H x
-spec_fn("c07_q", params=[("H", "real[2]"), ("x", "real[1]"), ("nb", "int[2]"), ("sz", "int[1]"), ("cc", "$real"), ("n", "int")], ret="real",
-        let={"P": "x.shape[0]"},
-        axioms=["implies(H.shape[0] == P and H.shape[1] == P, forall(0, P + 1, lambda n: c07_q(H, x, nb, sz, cc, n) == sumto(n, lambda a: c07_QR(H, x, a, P)),"
-                " pat=c07_q(H, x, nb, sz, cc, n)))"],
-        lemmas=_QL, py=_q_py, doc="x^T H x by rows; lemmas: the quadratic-form identity of the constant scheme")
-
-_XHX = "sumto(P, lambda a: sumto(P, lambda b: x[a] * H[a, b] * x[b]))"
+_XHX = "sumto(P, lambda a: x[a] * sumto(P, lambda b: H[a, b] * x[b]))"
+_X2P = "sumto(P, lambda a: x[a] * x[a])"
 _PAIRS = "sumto(P, lambda a: sumto(P, lambda b: c07_mult(nb, sz, a, b) * (x[a] - x[b]) * (x[a] - x[b])))"
+_TBLREQ = [r.replace("neighbors_sizes", "sz").replace("neighbors", "nb") for r in _nb()]
 corollary("C07.quadratic_form.constant", props=["C07"],
           vars={"c": "real", "nb": "int[2]", "sz": "int[1]", "x": "real[1]"}, let={"P": "nb.shape[0]"},
-          requires=["x.shape[0] == P"] + [r.replace("neighbors_sizes", "sz").replace("neighbors", "nb") for r in _nb()] + [_SYM],
+          requires=["x.shape[0] == P"] + _TBLREQ + [_SYM],
           calls=[("H", U + "constant_regularization_matrix_from", {"coefficient": "c", "neighbors": "nb", "neighbors_sizes": "sz"})],
-          ensures=["c07_q(H, x, nb, sz, c * c, P) == " + _XHX,
+          ensures=["c07_qc(H, x, nb, sz, c * c, P) == " + _XHX,
                    # x^T H x = 1e-8 |x|^2 + c^2 * (1/2) sum_a sum_b mult(a, b) (x_a - x_b)^2
-                   _XHX + " == 1e-08 * sumto(P, lambda a: x[a] * x[a]) + (c * c / 2) * " + _PAIRS,
-                   _XHX + " >= 1e-08 * sumto(P, lambda a: x[a] * x[a])",
+                   _XHX + " == 1e-08 * " + _X2P + " + (c * c / 2) * " + _PAIRS,
+                   _XHX + " >= 1e-08 * " + _X2P,
                    "implies(exists(0, P, lambda a: x[a] != 0), " + _XHX + " > 0)"],
           sentence="for the constant scheme x^T H x = c^2 * sum over neighbouring pairs of squared differences + 1e-8 |x|^2, hence strictly positive definite")
+
+
+# ---- weighted (adaptive-brightness) scheme: mu(a, b) = wm(a, b) + wm(b, a) = w_b^2 mult(a, b) + w_a^2 mult(b, a), deg = nw + win, kappa = 1
+# c07_clw: sum over k < K with nb[a, k] < m of w[nb[a, k]]^2
+spec_fn("c07_clw", params=[("w", "real[1]"), ("nb", "int[2]"), ("a", "int"), ("m", "int"), ("K", "int")], ret="real",
+        axioms=["forall(0, nb.shape[0], lambda a: forall(0, nb.shape[0] + 1, lambda m: c07_clw(w, nb, a, m, 0) == 0, pat=c07_clw(w, nb, a, m, 0)))",
+                "forall(0, nb.shape[0], lambda a: forall(0, nb.shape[0] + 1, lambda m: forall(0, nb.shape[1], lambda K:"
+                " c07_clw(w, nb, a, m, K + 1) == c07_clw(w, nb, a, m, K) + (w[nb[a, K]] * w[nb[a, K]] if nb[a, K] < m else 0), pat=c07_clw(w, nb, a, m, K + 1))))"],
+        py=lambda w, nb, a, m, K: float(sum(w[nb[a, k]] ** 2 for k in range(K) if nb[a, k] < m)))
+_MUW = "c07_wm(w, nb, {a}, {b}, sz[{a}]) + c07_wm(w, nb, {b}, {a}, sz[{b}])"
+_DEGW = "c07_nw(w, nb, {a}, sz[{a}]) + c07_win(w, nb, sz, {a}, P)"
+
+
+def _r3_w(lem, T, M0):
+    lem("R3a", "forall(0, P, lambda a: forall(0, P, lambda m: implies(" + T + " and K <= sz[a], c07_clw(w, nb, a, m + 1, K) == c07_clw(w, nb, a, m, K) + c07_wm(w, nb, a, m, K)),"
+               " pat=c07_clw(w, nb, a, m + 1, K)))", "K", "nb.shape[1]")
+    lem("R3c", _fa(T + " and K <= sz[a]", "c07_clw(w, nb, a, 0, K) == 0 and c07_clw(w, nb, a, P, K) == c07_nw(w, nb, a, K)", "(c07_clw(w, nb, a, 0, K), c07_clw(w, nb, a, P, K))"), "K", "nb.shape[1]")
+    lem("R3b", _fa(T, M0.format("a", "m") + " == c07_clw(w, nb, a, m, sz[a]) + c07_win(w, nb, sz, a, m)", M0.format("a", "m")), "m", "P")
+
+
+_PROW = "sumto({m}, lambda b: c07_mult(nb, sz, a, b) * (w[a] * w[a] + w[b] * w[b]) * (x[a] - x[b]) * (x[a] - x[b]))"
+_PAIRSW2 = "sumto({n}, lambda a: " + _PROW.format(m="P") + ")"
+
+
+def _nn_w(lem, T):
+    lem("N0", "forall(0, P, lambda a: forall(0, P, lambda b: implies(" + T + " and K <= sz[a], c07_wm(w, nb, a, b, K) >= 0), pat=c07_wm(w, nb, a, b, K)))", "K", "nb.shape[1]")
+    # for a symmetric table mu(a, b) = (w_a^2 + w_b^2) mult(a, b): the pair weights of the statement
+    lem("WM", "forall(0, P, lambda a: forall(0, P, lambda b: implies(" + T + " and K <= sz[a], c07_wm(w, nb, a, b, K) == w[b] * w[b] * c07_cnt(nb, a, b, K)), pat=c07_wm(w, nb, a, b, K)))", "K", "nb.shape[1]")
+    lem("MU", "forall(0, P, lambda a: forall(0, P, lambda b: implies(" + T + " and " + _QS + ", " + _MUW.format(a="a", b="b")
+              + " == c07_mult(nb, sz, a, b) * (w[a] * w[a] + w[b] * w[b])), pat=c07_wm(w, nb, a, b, sz[a])))")
+    lem("DRc", _fa(T + " and " + _QS, "c07_DRw(x, w, nb, sz, a, m) == " + _PROW.format(m="m"), "c07_DRw(x, w, nb, sz, a, m)"), "m", "P")
+    lem("DDc", "implies(" + T + " and " + _QS + ", sumto(n, lambda a: c07_DRw(x, w, nb, sz, a, P)) == " + _PAIRSW2.format(n="n") + ")", "n", "P")
+    lem("PAIRS", "implies(" + T + " and " + _QS + ", sumto(P, lambda a: c07_DRw(x, w, nb, sz, a, P)) == " + _PAIRSW2.format(n="P") + ")", export=True)
+
+
+def _muw_py(w, nb, sz, a, b):
+    return float(sum(w[nb[a, t]] ** 2 for t in range(int(sz[a])) if nb[a, t] == b) + sum(w[nb[b, t]] ** 2 for t in range(int(sz[b])) if nb[b, t] == a))
+
+
+_qf_chain("w", ["w", "nb", "sz"], [("w", "real[1]"), ("nb", "int[2]"), ("sz", "int[1]")], _MUW, _DEGW, "w.shape[0] == P", None, _r3_w, "", _nn_w, _muw_py)
+
+_PAIRSW = "sumto(P, lambda a: sumto(P, lambda b: (" + _MUW.format(a="a", b="b") + ") * (x[a] - x[b]) * (x[a] - x[b])))"
+corollary("C07.quadratic_form.weighted", props=["C07"],
+          vars={"w": "real[1]", "nb": "int[2]", "sz": "int[1]", "x": "real[1]"}, let={"P": "nb.shape[0]"},
+          requires=["x.shape[0] == P", "w.shape[0] == P"] + _TBLREQ,              # EVERY neighbour table, symmetric or not
+          calls=[("H", U + "weighted_regularization_matrix_from", {"regularization_weights": "w", "neighbors": "nb", "neighbors_sizes": "sz"})],
+          ensures=["c07_qw(H, x, w, nb, sz, 1, P) == " + _XHX,
+                   # x^T H x = 1e-8 |x|^2 + (1/2) sum_a sum_b (w_b^2 mult(a, b) + w_a^2 mult(b, a)) (x_a - x_b)^2
+                   _XHX + " == 1e-08 * " + _X2P + " + " + _PAIRSW + " / 2",
+                   _XHX + " >= 1e-08 * " + _X2P,
+                   "implies(exists(0, P, lambda a: x[a] != 0), " + _XHX + " > 0)"],
+          sentence="for the adaptive-brightness scheme x^T H x = sum over neighbouring pairs of (w_i^2 + w_j^2)(x_i - x_j)^2 + 1e-8 |x|^2, hence strictly positive definite")
+corollary("C07.quadratic_form.weighted_symmetric", props=["C07"],
+          vars={"w": "real[1]", "nb": "int[2]", "sz": "int[1]", "x": "real[1]"}, let={"P": "nb.shape[0]"},
+          requires=["x.shape[0] == P", "w.shape[0] == P"] + _TBLREQ + [_SYM],
+          calls=[("H", U + "weighted_regularization_matrix_from", {"regularization_weights": "w", "neighbors": "nb", "neighbors_sizes": "sz"})],
+          ensures=["c07_qw(H, x, w, nb, sz, 1, P) == " + _XHX,
+                   # symmetric table: x^T H x = 1e-8 |x|^2 + (1/2) sum_a sum_b mult(a, b) (w_a^2 + w_b^2) (x_a - x_b)^2
+                   _XHX + " == 1e-08 * " + _X2P + " + " + _PAIRSW2.format(n="P") + " / 2"],
+          sentence="for a symmetric neighbour table the pair (i, j) is weighted by exactly w_i^2 + w_j^2")
